@@ -27,6 +27,9 @@ CHECKS = {
  "C10": dict(engine="E1", technique="exhaustive enumeration of all 65536 sync words and of all binary event trains up to a length bound",
              text="All 65536 words go through split_sync in several shapes and through Reader.read_sync for imec/nidq, bin/cbin recordings; every 0/1 train of length 2..14 (16) goes through fronts/rises/falls in 1-D and 2-D along both axes, every train over {0,1,2} with step thresholds and analog mode, and all trains are written on each of the 16 lines of a recording and recovered end to end.",
              note="thresholded analog lines compared on windows with a known floor (percentile removal is data dependent by design)", ref="3/C10"),
+ "C14": dict(engine="E1", technique="exhaustive enumeration of all waveforms of length 6-7 (8) over 5-value alphabets (1 channel) and 3-value alphabets (2-3 channels)",
+             text="Every admissible waveform (largest deflection not on the first sample) of length 6 and 7 over {-3,-1,0,1,2} and {-2,-1,0,1,3}, and every 2-channel waveform of length 5 over {-2,0,1}, is run through the real compute_spike_features in one batch, reordered batches, scaled batches, channel-permuted batches and singleton batches; each row is compared with a tie-tolerant per-waveform reference (extremum/swap, ordering, half-peak points, recovery fallback). A realistic family (model spike, both polarities, noise, NaN channels, extrema on the last samples, lengths 10-200, 1-40 channels) is added.",
+             note="value alphabets are small; ties accepted in any consistent way; realistic family is fixed seeded content", ref="3/C14"),
  "C16": dict(engine="E1", technique="exhaustive enumeration of (channel count, count over threshold) x boundary placements, and of all flag patterns up to a length bound",
              text="For every nc in 1..40 and 100/384/400 and every count k=0..nc of channels one ulp below/at/above 98% of range (and just below/above the slew limit) the flags are compared with an exact Fraction comparison; every 0/1 flag pattern of length <=12 (14) x 10 taper widths is realised by four different recordings and the mute gain is checked for range, zeros on flags, ones beyond the half-width and dependence on the flags only.",
              note="exactly-at-the-slew-limit is not asserted (statement 'exceed' vs code '>='); proportions are simple rationals", ref="3/C16"),
